@@ -9,7 +9,7 @@ S=/tmp/mutcheck.$$; mkdir -p $S
 git -C /repo worktree add --detach $S/repo HEAD >/dev/null 2>&1 || { echo "worktree failed"; exit 2; }
 if ! git -C $S/repo apply "$PATCH"; then echo "PATCH-DOES-NOT-APPLY"; git -C /repo worktree remove --force $S/repo; rm -rf $S; exit 2; fi
 rsync -a --exclude .git --exclude build/replay --exclude 'build/C*' /verif/ $S/verif/
-( cd $S/verif && VERIF_REPO=$S/repo VERIF_SEED=${VERIF_SEED:-1} ./check $PID --tier $TIER > $S/out.txt 2> $S/err.txt; echo "exit=$?" >> $S/out.txt )
+( cd $S/verif && VERIF_REPO=$S/repo VERIF_SEED=${VERIF_SEED:-1} timeout ${MUTCHECK_TIMEOUT:-2400} ./check $PID --tier $TIER > $S/out.txt 2> $S/err.txt; echo "exit=$?" >> $S/out.txt )
 grep -E '^(VIOLATION|KNOWN-FINDING|exit=)' $S/out.txt
 tail -1 $S/err.txt
 for f in $(grep -o 'replay=[^ ]*' $S/out.txt | cut -d= -f2 | head -2); do echo "--- $f"; head -c 1500 $f; echo; done
